@@ -45,14 +45,21 @@ class _apcse:
     invariants = {1: ["True"]}
 
 
+@inline
+def lcv_ok(state):
+    """The level-constraint record exists and already holds the level (ValueNotAllowedInLevel.explain() reads it)."""
+    return has(state, "_level_constrained_values") and state.g_lcv_level
+
+
 @spec(A + "assert_level_constraint")
 class _alc:
     """TRUSTED: body uses the constraint-table library (ValueSet / allowed_values_for, bounded-checked under C17) and an OrderedDict."""
     args = {"state": STATE, "key": "str", "value": "int"}
-    requires = []
-    modifies = ['state["_level_constrained_values"]']
+    # the level must be the first value recorded: ValueNotAllowedInLevel.explain() looks it up
+    requires = ['key == "level" or lcv_ok(state)']
+    modifies = ['state["_level_constrained_values"]', "state.g_lcv_level"]
     raises = {"ValueNotAllowedInLevel": None}
-    ensures = ['has(state, "_level_constrained_values")']
+    ensures = ["lcv_ok(state)"]
     trusted = "constraint-table queries (allowed_values_for / ValueSet.__contains__) never raise and OrderedDict item assignment succeeds; bounded-checked under C17"
 
 
@@ -86,6 +93,12 @@ class _amv:
     raises_exact = True
     ensures = []
 
+
+# what the explain() methods of these exceptions need of their constructor arguments (C02, second sentence)
+raise_requires(ParseCodeNotAllowedInProfile, "is_parse_code(a0) and (a1 == 0 or a1 == 3)", "explain() calls ParseCodes(parse_code) and Profiles(profile)")
+raise_requires(ParseCodeNotSupportedByVersion, "is_parse_code(a0)", "explain() calls ParseCodes(parse_code)")
+raise_requires(ProfileNotSupportedByVersion, "a0 == 0 or a0 == 3", "explain() calls Profiles(profile)")
+raise_requires(MissingNextParseOffset, "is_parse_code(a0)", "explain() calls ParseCodes(parse_code)")
 
 # ---------------------------------------------------------------------------------------------------
 # stream.py
@@ -140,6 +153,22 @@ class _parse_info:
         'state["_generic_sequence_matcher"].m_count == old(state["_generic_sequence_matcher"].m_count) + 1',
         # (10.4.1) a sequence starts with a sequence header
         'implies(old(state["_generic_sequence_matcher"].m_count) == 0, state["parse_code"] == 0x00)',
-        'implies(has(state, "profile"), (state["parse_code"] & 0x88) != 0x88 or ((state["parse_code"] & 0xF8 == 0xC8 or state["parse_code"] & 0xF8 == 0xC8 + 4) == (state["profile"] == 0)))',
+        # (C.2.2) picture / fragment parse codes are of the class the profile allows
+        'implies(has(state, "profile") and ((state["parse_code"] & 0xF8) == 0xC8 or (state["parse_code"] & 0xF8) == 0xE8), '
+        '((state["parse_code"] & 0xF8) == 0xC8) == (state["profile"] == 0))',
         'state["next_bit"] == 7',
+        # C01 (10.5.1): what every accepted parse_info satisfies
+        'has(state, "_last_parse_info_offset") and 8 * state["_last_parse_info_offset"] + 104 == dpos(state)',
+        'implies(state["parse_code"] == 0x10, state["next_parse_offset"] == 0)',
+        'implies(state["parse_code"] == 0x00 or state["parse_code"] == 0x20 or state["parse_code"] == 0x30, state["next_parse_offset"] != 0)',
+        'not (1 <= state["next_parse_offset"] and state["next_parse_offset"] < 13)',
+        'implies(not old(has(state, "_last_parse_info_offset")), state["previous_parse_offset"] == 0)',
+        'implies(old(has(state, "_last_parse_info_offset")), '
+        'state["previous_parse_offset"] == state["_last_parse_info_offset"] - old(state["_last_parse_info_offset"]))',
+        'implies(old(has(state, "next_parse_offset")) and old(state["next_parse_offset"]) != 0, '
+        'old(state["next_parse_offset"]) == state["_last_parse_info_offset"] - old(state["_last_parse_info_offset"]))',
+        'implies(has(state, "major_version"), state["major_version"] >= (3 if (state["parse_code"] & 0x0C) == 0x0C else 1))',
     ]
+
+
+from contracts.c02_corpus import MONITOR_DRIVER  # noqa: E402,F401  (native fallback: run-time monitoring over corpus streams)
